@@ -60,7 +60,10 @@ theorem parseLossAux_good (cs : List Char) (st dur : Nat) (acc out : List LossIt
     | none =>
       simp only at h
       by_cases hdg : c.isDigit = true
-      · rw [if_pos hdg] at h; exact ih st _ acc hacc hst h
+      · rw [if_pos hdg] at h
+        by_cases hb : dur * 10 + (c.toNat - '0'.toNat) > maxLossDur
+        · rw [if_pos hb] at h; cases h
+        · rw [if_neg hb] at h; exact ih st _ acc hacc hst h
       · rw [if_neg hdg] at h; cases h
 
 /-- **Accepted patterns are well-formed**: at least one interval, every duration positive — so the cycle
